@@ -42,20 +42,38 @@ pub struct MemNew<'a> {
     pub bytes: &'a [u8],
     pub pos: usize,
     pub seek_base: Option<usize>,
+    /// number of callback calls so far, and the call that fails (if any)
+    pub calls: usize,
+    pub fail_at: Option<usize>,
+}
+
+impl<'a> MemNew<'a> {
+    fn call(&mut self) -> Result<(), raw::CallbackError> {
+        let k = self.calls;
+        self.calls += 1;
+        if Some(k) == self.fail_at {
+            Err(raw::CallbackError)
+        } else {
+            Ok(())
+        }
+    }
 }
 
 impl<'a> raw::CallbackNew for MemNew<'a> {
     fn read(&mut self, buffer: &mut [u8]) -> Result<usize, raw::CallbackError> {
+        self.call()?;
         let n = buffer.len().min(self.bytes.len() - self.pos);
         buffer[..n].copy_from_slice(&self.bytes[self.pos..self.pos + n]);
         self.pos += n;
         Ok(n)
     }
     fn set_seek_base(&mut self) -> Result<(), raw::CallbackError> {
+        self.call()?;
         self.seek_base = Some(self.pos);
         Ok(())
     }
     fn ensure_filesize(&mut self, filesize: u32) -> Result<Result<(), ()>, raw::CallbackError> {
+        self.call()?;
         Ok(if self.bytes.len() as u64 >= filesize as u64 {
             Ok(())
         } else {
@@ -70,10 +88,15 @@ pub struct MemData<'a> {
     pub buffer: Vec<u8>,
     /// (start, requested length) of every seek_read
     pub reads: Vec<(u32, usize)>,
+    pub fail_seek: bool,
+    pub fail_alloc: bool,
 }
 
 impl<'a> raw::CallbackReadData for MemData<'a> {
     fn seek_read(&mut self, start: u32, buffer: &mut [u8]) -> Result<usize, raw::CallbackError> {
+        if self.fail_seek {
+            return Err(raw::CallbackError);
+        }
         self.reads.push((start, buffer.len()));
         let off = self.seek_base + start as usize;
         let avail = self.bytes.len().saturating_sub(off);
@@ -84,6 +107,9 @@ impl<'a> raw::CallbackReadData for MemData<'a> {
         Ok(n)
     }
     fn alloc_data_buffer(&mut self, length: usize) -> Result<(), raw::CallbackError> {
+        if self.fail_alloc {
+            return Err(raw::CallbackError);
+        }
         // calloc: untouched pages of a huge claimed size cost nothing
         self.buffer = vec![0u8; length];
         Ok(())
@@ -611,12 +637,37 @@ fn describe(bytes: &[u8], r: &raw::Reader, seek_base: usize, o: &mut Oracle) -> 
     let mut ds = vec![];
     let mut datas = vec![];
     for i in 0..nd {
-        let mut cb = MemData { bytes, seek_base, buffer: vec![], reads: vec![] };
+        let mut cb = MemData { bytes, seek_base, buffer: vec![], reads: vec![], fail_seek: false, fail_alloc: false };
         let res = r.read_data(&mut cb, i);
         for &(start, len) in &cb.reads {
             if start as usize + len > size_data {
                 o.fail("C16/data-read-outside-data-section", format!("data {} start {} len {} size_data {}", i, start, len, size_data));
             }
+        }
+        // callbacks that fail: the callback's error (or the error detected before that call) comes
+        // back, and a later call without failure returns what the first one returned
+        let first: Result<Vec<u8>, &'static str> = match &res {
+            Ok(()) => Ok(cb.buffer.clone()),
+            Err(e) => Err(raw_err_name(e)),
+        };
+        let mut cb2 = MemData { bytes, seek_base, buffer: vec![], reads: vec![], fail_seek: true, fail_alloc: false };
+        match r.read_data(&mut cb2, i) {
+            Err(raw::Error::Callback) => {}
+            other => o.fail("C16/callback-error-not-returned", format!("data {} seek_read failed, read_data returned {:?}", i, other.map_err(|e| raw_err_name(&e)))),
+        }
+        let mut cb3 = MemData { bytes, seek_base, buffer: vec![], reads: vec![], fail_seek: false, fail_alloc: true };
+        match r.read_data(&mut cb3, i) {
+            Err(raw::Error::Callback) => {}
+            Err(e) if Err(raw_err_name(&e)) == first => {}
+            other => o.fail("C16/callback-error-not-returned", format!("data {} alloc_data_buffer failed, read_data returned {:?}", i, other.map_err(|e| raw_err_name(&e)))),
+        }
+        let mut cb4 = MemData { bytes, seek_base, buffer: vec![], reads: vec![], fail_seek: false, fail_alloc: false };
+        let again: Result<Vec<u8>, &'static str> = match r.read_data(&mut cb4, i) {
+            Ok(()) => Ok(cb4.buffer),
+            Err(e) => Err(raw_err_name(&e)),
+        };
+        if again != first {
+            o.fail("C16/state-changed-by-failed-callback", format!("data {}", i));
         }
         match res {
             Ok(()) => {
@@ -634,7 +685,12 @@ fn describe(bytes: &[u8], r: &raw::Reader, seek_base: usize, o: &mut Oracle) -> 
 }
 
 fn open(bytes: &[u8], o: &mut Oracle, expect: Option<(&[Item], &[Vec<u8>])>) -> String {
-    let mut cb = MemNew { bytes, pos: 0, seek_base: None };
+    open_cb(bytes, o, expect, None)
+}
+
+/// `fail_at`: the callback call of `Reader::new` that returns `Err(CallbackError)`
+fn open_cb(bytes: &[u8], o: &mut Oracle, expect: Option<(&[Item], &[Vec<u8>])>, fail_at: Option<usize>) -> String {
+    let mut cb = MemNew { bytes, pos: 0, seek_base: None, calls: 0, fail_at };
     let res = match catch(|| raw::Reader::new(&mut cb)) {
         Ok(r) => r,
         Err(msg) => {
@@ -643,6 +699,12 @@ fn open(bytes: &[u8], o: &mut Oracle, expect: Option<(&[Item], &[Vec<u8>])>) -> 
             return "panic-new".to_string();
         }
     };
+    if let Some(k) = fail_at {
+        // the failing call was reached: the result must be the callback's error
+        if cb.calls > k && !matches!(res, Err(raw::Error::Callback)) {
+            o.fail("C16/callback-error-not-returned", format!("call {} of Reader::new failed file={}", k, to_hex(bytes)));
+        }
+    }
     match res {
         Err(e) => {
             o.count(&format!("new_err_{}", raw_err_name(&e)));
@@ -693,7 +755,7 @@ fn open(bytes: &[u8], o: &mut Oracle, expect: Option<(&[Item], &[Vec<u8>])>) -> 
 }
 
 fn sweep(bytes: &[u8], o: &mut Oracle) -> String {
-    let mut cb = MemNew { bytes, pos: 0, seek_base: None };
+    let mut cb = MemNew { bytes, pos: 0, seek_base: None, calls: 0, fail_at: None };
     let res = match catch(|| raw::Reader::new(&mut cb)) {
         Ok(r) => r,
         Err(msg) => {
@@ -773,6 +835,10 @@ impl Runner for R {
                     _ => "bad-op".to_string(),
                 }
             }
+            ["opencb", k, h] => match (k.parse::<usize>(), parse_hex(h)) {
+                (Ok(k), Some(bs)) => open_cb(&bs, o, None, Some(k)),
+                _ => "bad-op".to_string(),
+            },
             ["sweep", h] => match parse_hex(h) {
                 Some(bs) => sweep(&bs, o),
                 None => "bad-op".to_string(),
@@ -1326,6 +1392,21 @@ impl Domain for D {
                         emit(out, format!("hsweep {} {} {} {} {}", fix, k1, k2, vs, hex));
                     }
                 }
+            }
+        }
+
+        // 7c. callbacks that fail: every callback call of Reader::new on valid and on broken files
+        for (img, _, _) in bases.iter().take(if thorough { 12 } else { 4 }) {
+            let f = img.serialize();
+            for k in 0..9 {
+                emit(out, format!("opencb {} {}", k, to_hex(&f)));
+                // a file that is too short / malformed: the earlier error wins
+                emit(out, format!("opencb {} {}", k, to_hex(&f[..f.len() / 2])));
+                let mut g = f.clone();
+                if g.len() > 40 {
+                    g[38] ^= 0x40;
+                }
+                emit(out, format!("opencb {} {}", k, to_hex(&g)));
             }
         }
 
